@@ -27,7 +27,9 @@ type Program struct {
 
 	info map[*ast.File]*packages.Package
 
-	cur     *pathCtx
+	cur        *pathCtx
+	engine     *Engine
+	deepShared *Deep
 	deep    bool // deps loaded with syntax
 	allPkgs []*packages.Package
 }
@@ -47,6 +49,9 @@ type Func struct {
 
 	defs          *defInfo
 	decodeTargets map[types.Object]bool
+
+	lockOps int   // 0 unknown, 1 yes, 2 no
+	flat    *Path // flattened event list (functions without lock operations)
 
 	bind    *binding // set on a per-call-site instance of an inlined helper
 	derived bool     // literal instance inside a bound helper
